@@ -10,6 +10,7 @@ pub(crate) mod proofs {
     // @props C04
     #[kani::proof] #[kani::unwind(6)] #[kani::stub(std::hint::spin_loop, noop)]
     fn probe_send() {
+        #[allow(unused)] use crate::streams_manager::verif_hooks as sm;
         const N: usize = 4; const M: usize = 2;
         let live: u32 = kani::any(); kani::assume(live >= 1 && live <= M as u32);
         let ch = Atomic::<u32, N, M> { streams_manager: sm::manager_with_streams::<M>(live, true), channel: AtomicMove::<u32, N>::new(), _phantom: PhantomData };
